@@ -54,7 +54,10 @@ fn mutate_lines(r: &mut Rng, src: &str, all: &[String]) -> String {
                 }
             }
             4 => {
-                lines[i] = lines[i].replace('8', "0").replace('1', "100000");
+                // inflate numbers; only rarely to sizes that make elaboration allocate for
+                // minutes (that class is a recorded finding and would dominate the run time)
+                let big = if r.chance(1, 12) { "100000" } else { "130" };
+                lines[i] = lines[i].replace('8', "0").replace('1', big);
             }
             5 => {
                 lines[i] = lines[i].replace("logic", "bit").replace("input", "output");
